@@ -294,7 +294,7 @@ def gen_schedule(rnd, nops, cfg, faults=0, snaps=False, small_cache=False, reads
     for o in ops:
         items.append(o)
         r = rnd.random()
-        if o.startswith("P") and faults == 0 and rnd.random() < 0.4:
+        if o.startswith("P") and faults == 0 and rnd.random() < 0.65:
             # purge, flush, worker idle, look: the liveness clause of C08 is judged here
             items += ["F 1", "wi", "G"]
         elif o.startswith("F"):
@@ -485,6 +485,12 @@ def run_crash(ctx, prop):
         line, st = gen_schedule(rnd, rnd.randint(4, ctx.scale(25, 50)), cfg, faults=0, snaps=True, autosnap=(i % 2 == 0))
         cases.append(line)
         cfgs.append(cfg)
+    # a large entry (its torn part alone exceeds 64 KiB) written but not yet synced when the crash comes
+    for j in range(ctx.scale(2, 8)):
+        size = rnd.choice([90000, 150000, 260000])
+        cases.append("TRACE 100000 1073741824 %d 1073741824 1 %d | A 1 0 x00 ; A 1 1 x01 ; F 1 ; wi ; A 1 2 %s ; F 1 ; w 1 ; snap ; w 1 ; snap ; wi ; snap"
+                     % (rnd.choice([4, 100000]), rnd.choice(gen.CFG_RBUF), gen.hx(bytes((i * 17 + j) & 0xFF for i in range(size)))))
+        ctx.count("large_entry_traces")
     cases = p_seq.corpus(prop) + cases
     cfgs = [c.split("|")[0].replace("TRACE", "").strip() for c in cases]
     logs, rep = trace_check(ctx, prop.lower(), cases)
@@ -691,6 +697,14 @@ def run_C14(ctx):
         if last is not None:
             items += ["P %d %d" % last, "F 1", "wi", "V 4000000000 1", "F 1", "wi", "G"]
         cases.append("TRACE %s | %s" % (cfg, " ; ".join(items)))
+    # the request channel full at the time of the drop: nothing that was accepted may be lost
+    for j in range(ctx.scale(1, 3)):
+        recs = rnd.choice([200, 400])
+        cfg = "100000 1073741824 %d 1073741824 1 64" % recs
+        n = 1024 + rnd.randint(10, 30)
+        cases.append("TRACE %s | A 1 0 x61 ; F 1 ; w 1 ; burst %d %d ; %s ; release ; open %s ; G ; R 0 100000 ; A 1 %d x62 ; F 1 ; wi ; G"
+                     % (cfg, n, n, rnd.choice(["dropheld", "panicheld"]), cfg, n + 1))
+        ctx.count("channel_full_then_drop")
     cases = p_seq.corpus("C14") + cases
     logs, rep = trace_check(ctx, "c14", cases)
     views, bad = analyse(ctx, "C14", cases, logs, None)
